@@ -4,7 +4,7 @@ NOTES = ("All checks: ./check <id> --tier quick|thorough; setup builds the Coq d
          "and compiles the driver. known_findings.json lists recorded defects (kind known) and repaired ones (kind fixed).")
 NOT_APPLICABLE = {}
 # built, but their fix stage is in progress (model already in the repaired state, patches not yet committed to /repo)
-PENDING = {"C01", "C02", "C04", "C07", "C10", "C11", "C12", "C14"}
+PENDING = {"C01", "C02", "C04", "C07", "C10", "C11", "C12", "C14", "C16"}
 COMMON_NOTE = ("Trusted: Coq 8.16.1 kernel (+vm_compute), extraction (ExtrOcamlBasic, ExtrOcamlString), OCaml driver, the Python harness, "
                "CPython/torch as referents. Theorems are about the hand-written model; the model<->code tie is this run's differential "
                "correspondence, bounded by its generators (distribution in the evidence). ")
@@ -180,6 +180,20 @@ CHECKS = {
                  "exception injected at every point; output inside the block vs torch.func.functional_call, also under vmap."),
         "note": COMMON_NOTE + "Module forward, functorch and acyclicity of the module graph are assumed. Known findings in findings.d/C13.json.",
         "technique": "Coq invariant proofs over a module-heap model + extracted-model differential run + identity oracle with fault injection",
+    },
+    "C16": {
+        "text": ("Proof (Coq): a non-tensor entry `nt := Shared payload shape | Stack dim members` denotes a batch-shaped array of objects, and for ALL "
+                 "ranks, nesting depths and stack dims: maybe_to_stack and from_nontensordata keep the denotation; unbind gives the array with the "
+                 "coordinate fixed; `_stack_non_tensor` denotes the dense stack (coordinate insertion) and is Shared exactly when every operand is a "
+                 "NonTensorData with that payload; indexing with ints / slices / None / one advanced index yields the spec shape and the designated "
+                 "objects; tolist is the row-major nested list; after `td[idx] = v` (no-op and promotion branches) the addressed positions hold "
+                 "v's objects and all others are unchanged, for EVERY history of writes (Shared -> Stack -> written back ...). Refutation witnesses "
+                 "for the recorded defects. Theorems are conditional on the model returning Ok (masks of rank >= 2, writes with None etc. are "
+                 "OutOfModel). Tie: differential runs of random operation histories against the extracted model and, independently, against a "
+                 "pure position-id proxy array; the array spec is validated against torch indexing each run."),
+        "note": COMMON_NOTE + "Shape ops on stacks, cat/update_, memmap/pickle/to_dict and lazy containers are covered by the oracle run only. "
+                "Known findings in findings.d/C16.json.",
+        "technique": "Coq proof over a Gallina transcription with a denotation function + history induction + position-id proxy differential",
     },
     "C17": {
         "text": ("Proof (Coq): for every invertible operation the inverse function's re-parsing of the recorded (args, kwargs) yields the same "
